@@ -467,6 +467,7 @@ func isCacheFileName(n string) bool {
 
 type verdict struct {
 	states, strict, excluded int
+	restartStates            int
 	proto                    map[string]bool
 	fail                     error // first failure outside every known signature
 	known                    error // first failure matching F18
@@ -611,12 +612,65 @@ func enumerate(c Case, ob observed, crashRoot string) verdict {
 		v.proto["valid-before-update"] = true
 	}
 
+	// restore puts the crash directory back into the state cur (after a client was allowed
+	// to write into it)
+	restore := func() {
+		ents, err := os.ReadDir(sub)
+		if err != nil {
+			panic(err)
+		}
+		for _, e := range ents {
+			b, ok := cur[e.Name()]
+			if !ok {
+				os.RemoveAll(filepath.Join(sub, e.Name()))
+				continue
+			}
+			if on, err := os.ReadFile(filepath.Join(sub, e.Name())); err != nil || !bytes.Equal(on, b) {
+				if err := os.WriteFile(filepath.Join(sub, e.Name()), b, 0o600); err != nil {
+					panic(err)
+				}
+			}
+		}
+		for n, b := range cur {
+			if _, err := os.Stat(filepath.Join(sub, n)); err != nil {
+				if err := os.WriteFile(filepath.Join(sub, n), b, 0o600); err != nil {
+					panic(err)
+				}
+			}
+		}
+	}
+
+	var judge func(desc string, tornName string, tornInPlace bool, afterFailedRefresh bool)
 	check := func(desc string, tornName string, tornInPlace bool) {
-		v.states++
+		judge(desc, tornName, tornInPlace, false)
+	}
+	// checkRestart: the restarted process first tries a refresh while the server is
+	// unreachable (HTTP 503), and only then reads the cache
+	checkRestart := func(desc string, tornName string, tornInPlace bool) {
+		if v.fail != nil {
+			return
+		}
+		judge(desc+", then a refresh that fails with HTTP 503", tornName, tornInPlace, true)
+		restore()
+	}
+	judge = func(desc string, tornName string, tornInPlace bool, afterFailedRefresh bool) {
 		names, valid := scan()
 		hadDesc, hadNames := lastValidDesc, lastValidNames
-		if len(valid) > 0 {
-			lastValidDesc, lastValidNames = "in the state \""+desc+"\"", valid
+		if afterFailedRefresh {
+			v.restartStates++
+			v.proto["restart-with-failed-refresh"] = true
+			tr := &memTransport{next: &reply{status: 503}}
+			rc, err := autoconf.NewClient(autoconf.WithCacheDir(crashRoot), autoconf.WithURL(testURL),
+				autoconf.WithHTTPClient(&http.Client{Transport: tr}))
+			if err != nil {
+				panic(err)
+			}
+			_, _ = rc.GetLatest(context.Background())
+		} else {
+			v.states++
+			if len(valid) > 0 {
+				lastValidDesc, lastValidNames = "in the state \""+desc+"\"", valid
+			}
 		}
 		cl, err := autoconf.NewClient(autoconf.WithCacheDir(crashRoot), autoconf.WithURL(testURL))
 		if err != nil {
@@ -686,6 +740,12 @@ func enumerate(c Case, ob observed, crashRoot string) verdict {
 			if !ok {
 				// written, then removed again within the same refresh: content unknown
 				v.proto["transient-file"] = true
+				if _, existed := ob.before[s.name]; !existed && s.kind == "write" {
+					// a file created during the update exists empty at the moment of its creation
+					put(s.name, nil)
+					check(fmt.Sprintf("step %d: transient file %q just created (empty)", i, s.name), "", false)
+					checkRestart(fmt.Sprintf("step %d: transient file %q just created (empty)", i, s.name), "", false)
+				}
 				del(s.name)
 				continue
 			}
@@ -714,8 +774,20 @@ func enumerate(c Case, ob observed, crashRoot string) verdict {
 				if k < len(content) {
 					v.strict++
 					check(fmt.Sprintf("step %d: %q truncated to %d of %d bytes", i, s.name, k, len(content)), s.name, inPlace)
+					if k == 0 || k == len(content)/2 {
+						fh.Close()
+						checkRestart(fmt.Sprintf("step %d: %q truncated to %d of %d bytes", i, s.name, k, len(content)), s.name, inPlace)
+						if fh, err = os.OpenFile(filepath.Join(sub, s.name), os.O_WRONLY|os.O_APPEND, 0); err != nil {
+							panic(err)
+						}
+					}
 				} else {
 					check(fmt.Sprintf("step %d: %q complete", i, s.name), "", false)
+					fh.Close()
+					checkRestart(fmt.Sprintf("step %d: %q complete", i, s.name), "", false)
+					if fh, err = os.OpenFile(filepath.Join(sub, s.name), os.O_WRONLY|os.O_APPEND, 0); err != nil {
+						panic(err)
+					}
 				}
 			}
 			fh.Close()
@@ -730,12 +802,14 @@ func enumerate(c Case, ob observed, crashRoot string) verdict {
 			del(s.name)
 			put(s.to, b)
 			check(fmt.Sprintf("step %d: %q renamed to %q", i, s.name, s.to), "", false)
+			checkRestart(fmt.Sprintf("step %d: %q renamed to %q", i, s.name, s.to), "", false)
 		case "delete":
 			del(s.name)
 			if isCacheFileName(s.name) {
 				v.proto["cleanup-delete"] = true
 			}
 			check(fmt.Sprintf("step %d: %q removed", i, s.name), "", false)
+			checkRestart(fmt.Sprintf("step %d: %q removed", i, s.name), "", false)
 		}
 	}
 	// the replayed protocol must end in the observed final directory
@@ -835,7 +909,7 @@ func sample(c Case) any {
 
 var spec = kit.Spec[Case]{
 	Prop: "C45", Name: "main",
-	Rule:  "autoconf client in a synctest bubble with an in-memory RoundTripper: 0..3 successful refreshes (new payload / identical payload / 304), then one more refresh observed with inotify; every crash state of the observed write protocol (every byte truncation of each file written in place with later files in their old state, temp-file truncations and atomic rename steps, removals) is materialised and a fresh client's GetCached() must return the new or the newest earlier fetched config, the fallback only when no valid autoconf-*.json exists in the crash state nor existed in any earlier state of the update (the state before the update included: an update must not remove the last valid version before its replacement is readable; cache size 1 is generated with weight 1/3 for this); non-trivial = at least one earlier cached version exists and strict truncations were checked",
+	Rule:  "autoconf client in a synctest bubble with an in-memory RoundTripper: 0..3 successful refreshes (new payload / identical payload / 304), then one more refresh observed with inotify; every crash state of the observed write protocol (every byte truncation of each file written in place with later files in their old state, temp-file truncations and atomic rename steps, removals) is materialised and a fresh client's GetCached() must return the new or the newest earlier fetched config, the fallback only when no valid autoconf-*.json exists in the crash state nor existed in any earlier state of the update (the state before the update included: an update must not remove the last valid version before its replacement is readable; cache size 1 is generated with weight 1/3 for this); a file created and removed again within the update is materialised empty at its creation; at every protocol step boundary and at the 0-byte and half-way truncation of every file the restarted process is also made to attempt a refresh against a server answering 503 before the cached read, under the same oracle; non-trivial = at least one earlier cached version exists and strict truncations were checked",
 	Quick: 50, Thorough: 200,
 	Gen: gen, Run: run, Sample: sample,
 }
